@@ -115,6 +115,12 @@ func runInterrupts(t *kernel.Tape, opt core.Opts, only string) *core.Outcome {
 	g := GenOpts{Modes: []int{ModePregel, ModeDAG, ModeWorkflow}, MaxNodes: 5, Depth: 2, Cycles: true, State: 40,
 		Streams: t.PlanBool(50), Handlers: true, Yields: 1, Parallelism: t.PlanBool(40)}
 	p := Generate(t, g)
+	// 1 in 12 C05 histories: some outputs are statically typed any, so edges carry the framework's
+	// runtime type check (reported under a class of its own, known finding)
+	anyVariant := only == "C05" && t.Plan(12) == 0
+	if anyVariant {
+		decorateAnyTypes(t, p, 30, false)
+	}
 	decorateInterrupts(t, p, true)
 	in := M{"in": fmt.Sprintf("x%d", t.Plan(3))}
 	if t.PlanBool(40) {
@@ -216,8 +222,23 @@ func runInterrupts(t *kernel.Tape, opt core.Opts, only string) *core.Outcome {
 		return o
 	}
 	last := calls[len(calls)-1]
+	// known finding: a channel value that crossed an edge with a runtime type check has the
+	// target's type, the checkpoint converts it between value and stream form with the source's
+	anyKnown := func(msg string) bool {
+		return anyVariant && hasAnyTypes(p) && len(calls) > 1 && (strings.Contains(msg, "impossible") || strings.Contains(msg, "unexpected input type") || strings.Contains(msg, "interface {}") || strings.Contains(msg, "interface is nil, not compose.streamReader"))
+	}
+	const anyClass = "C05/any-typed-edge-value-mistyped-after-checkpoint-round-trip"
+	const anyText = "a value that crossed an edge with a runtime type check (any -> map) was converted between value and stream form by the checkpoint with the source node's type: "
 	if last.res.Panic != nil {
+		if anyKnown(fmt.Sprint(last.res.Panic)) {
+			o.Violate(anyClass, anyText+firstLine(fmt.Sprint(last.res.Panic)))
+			return o
+		}
 		o.Violate(only+"/panic-escaped-call", fmt.Sprint(last.res.Panic))
+		return o
+	}
+	if last.res.Err != nil && anyKnown(last.res.Err.Error()) {
+		o.Violate(anyClass, anyText+"the resumed run failed: "+firstLine(lastLines(last.res.Err.Error())))
 		return o
 	}
 	nInt := 0
